@@ -17,11 +17,11 @@ import (
 // stream: byte mutations and truncations of such texts.
 
 var c11Seps = []string{" ", " ", "  ", "\t", " \t ", " ", " ", "\t\t", "　 "}
-var c11Types = []string{"rbind", "bind", "proc", "tmpfs", "x-weird", "é", "a=b", "#t", "//t", "ext4,ro", "b\xffd"}
+var c11Types = []string{"rbind", "bind", "proc", "tmpfs", "x-weird", "é", "a=b", "#t", "//t", "ext4,ro", "b\xffd", "t%s", "100%"}
 var c11Paths = []string{"/dev", "/proc", "/sys", "/var/db/repos", "/a/../b", "//c/", "/x//y/./z/", "/..", "..", "../up",
 	".", "./", "a/b", "$$self/x", "$$base/packages", "$$package_export", "$$file_export/sub/", "/é/ü", "/tr/ailing/",
-	"/a/b/../../..", "/sp ace", "~user/x", "/\xc3", "/\xe1\x9a", "/#x", "/a#b", "//", "/", "/very/long/" + strings.Repeat("p/", 20)}
-var c11Names = []string{"base1", "Gentoo-2024", "x", "é1", "_u", "a-b", "bäse", "1"}
+	"/a/b/../../..", "/sp ace", "~user/x", "/\xc3", "/\xe1\x9a", "/#x", "/a#b", "//", "/", "/srv/dist%20files", "/p%d/%s", "/100%", "%v", "/very/long/" + strings.Repeat("p/", 20)}
+var c11Names = []string{"base1", "Gentoo-2024", "x", "é1", "_u", "a-b", "bäse", "1", "b%d", "%s"}
 
 func c11Sep(g *Gen) string { return c11Seps[g.Intn(len(c11Seps))] }
 
